@@ -4,8 +4,18 @@
 Specification: spec/Replication.tla (pipeline loop, subscriber goroutine, Manager operations under
 mu, exporter failures, in-flight Accept, concurrent log production), checked exhaustively by TLC:
 safety invariants, liveness under weak fairness (no constraint, no VIEW), negative-control cfgs that
-MUST fail, and schedule-search cfgs for the two statements DESIGN.md section 8 suspects
-(persisted <= acknowledged since the last reset; after a reset everything is exported again).
+MUST fail.  The faithful model has JoinSubscriber = TRUE (since /repo 9ae9635 a stop waits for the
+subscriber of the stopped pipeline).  The model of the code before that repair (JoinSubscriber = FALSE)
+is kept as negative control: TLC must refute "persisted <= acknowledged since the last reset", "after a
+reset everything is exported again" (safety and liveness form) on it, and the two schedules it prints
+are forced on the real code, where they must not be reproducible (if they are, the late
+StorePipelineState is back: signature reset-vs-subscriber-store/late-StorePipelineState).
+
+Count-based liveness on real executions (harness oracle + TraceReplication.tla, same rule): refusals of a
+HEALTHY exporter (it honours the context it is given, as drivers.Batcher does) are not charged to the
+scenario's failure budget; 5 of them in a row to one pipeline instance, with no accepted batch in between,
+is a violation (signature no-progress-after-failures/healthy-exporter-refused).  Attempts are counted,
+never time: a bounded wait that expires stays Inconclusive.
 
 Binding to the code (harness/repl, binary vh-repl; the REAL replication.Manager / PipelineHandler /
 DriverFacade over an in-memory replication.Storage and a recording drivers.Driver):
